@@ -760,6 +760,26 @@ func (g *Gen) buildEntries(sv reflect.Value, f *FieldInfo, path []PathElem, dept
 		if !okAll {
 			continue
 		}
+		// a list nested in an entry of a list of the same name: the first entry sometimes
+		// takes the key of that ancestor entry (same element names and key values at two depths)
+		if made == 0 && keyPool == nil && len(f.Path) > 0 && g.coin(0.5) {
+			for ai := len(path) - 1; ai >= 0; ai-- {
+				if path[ai].Name != f.Path[len(f.Path)-1] || len(path[ai].Keys) != len(kfs) {
+					continue
+				}
+				same := true
+				for _, kf := range kfs {
+					cv, ok := path[ai].Keys[kf.Path[len(kf.Path)-1]]
+					if !ok || !ParseCanonInto(ent.Elem().Field(kf.Idx), cv) {
+						same = false
+					}
+				}
+				if same {
+					g.Tags["nested-same-name-same-key"]++
+				}
+				break
+			}
+		}
 		if !isTwin && len(strKeys) >= 2 && len(strKeys) == len(kfs) && g.Opt.Hostile && g.coin(0.3) {
 			k0, k1 := ent.Elem().Field(strKeys[0].Idx), ent.Elem().Field(strKeys[1].Idx)
 			x, s2 := k0.Elem().String(), k1.Elem().String()
